@@ -181,7 +181,7 @@ def run(tier, seed):
             scase = {"malformed_frames": c["malformed_frames"], "messages_sent": c["messages_sent"], "messages_handled": c["messages_handled"], "first_difference_after_the_malformed_frame": c["first_difference_after_the_malformed_frame"]}
             plain = str(c["first_difference_after_the_malformed_frame"] or "").startswith("(no malformed frame")
             if plain:
-                v.violation("well-formed messages written right behind a large one (one write, a tick among them) were not all delivered once, in order" + ("" if c["still_connected"] else "; the receiver stopped"), scase)
+                v.violation("well-formed messages whose bytes arrived in an unusual way (right behind a large message in one write, or in two pieces with a pause in between) were not all delivered once, in order" + ("" if c["still_connected"] else "; the receiver stopped"), scase)
             elif not c["still_connected"]:
                 v.violation("the receiver stopped / the connection was deregistered on a malformed but correctly framed input", scase)
             elif not c["in_order_without_gaps"]:
